@@ -411,6 +411,30 @@ func runLeakCase(c *Ctx, tc tblCase, seed int64) (vs []rsV, evals int) {
 		_, err4 = w4.Write([]byte("record"))
 		err4 = errors.Join(err4, w4.Close())
 	}
+	// a writer that is closed after a seek back to an earlier record boundary (Close then cuts the stale tail off): with
+	// nothing, with a shorter and with a longer record written after the rewind
+	for variant := 0; variant < 3 && err4 == nil; variant++ {
+		w5, e := recordio.NewFileWriter(recordio.Path(filepath.Join(dir, fmt.Sprintf("seekback%d.rio", variant))), recordio.CompressionType(tc.DataComp))
+		if e != nil {
+			err4 = e
+			break
+		}
+		if err4 = w5.Open(); err4 != nil {
+			break
+		}
+		_, e1 := w5.Write([]byte("first record"))
+		off, e2 := w5.Write([]byte("second record, to be taken back"))
+		_, e3 := w5.Write(nil)
+		e4 := w5.Seek(off)
+		var e5 error
+		switch variant {
+		case 1:
+			_, e5 = w5.Write([]byte("short"))
+		case 2:
+			_, e5 = w5.Write(make([]byte, 200))
+		}
+		err4 = errors.Join(e1, e2, e3, e4, e5, w5.Close())
+	}
 	evals++
 	Beat()
 	if err != nil || err2 != nil || err3 != nil || err4 != nil {
